@@ -504,7 +504,13 @@ for _d in sorted(_glob.glob(_os.path.join(_SEEDED, "*"))):
 # repairing the seeded bug while keeping the refactoring it was hidden in (r2fix-*); every check must stay silent.
 # UNSUPPORTED: refactorings whose correctness the static rules cannot establish (reported, documented in DESIGN.md 6.5)
 ALL_PROPS = ["C%02d" % _i for _i in range(1, 21)]
-UNSUPPORTED_REFACTORS = {}
+UNSUPPORTED_REFACTORS = {
+    # behaviour-preserving, but the static rules cannot establish it and report it (documented limits, DESIGN.md 6.5):
+    "r2fix-c09": "progress-bar branch runs the steps in blocks of 256: equality of the two branches' iteration counts is arithmetic over "
+                 "iterator lengths, which the runner rule (identical loop over the same range in both branches) does not decide",
+    "agents-5": "momentum direction routed through a helper returning Option<Side> and matched later: the sign case analysis does not yet "
+                "correlate the Option<Side> alternatives with the sign tests that built them",
+}
 for _f in sorted(_glob.glob(_os.path.join(_os.path.dirname(_os.path.abspath(__file__)), "refactors", "*.diff"))):
     _n = _os.path.basename(_f)[:-5]
     if _n in UNSUPPORTED_REFACTORS:
